@@ -116,6 +116,9 @@ func probe(phase string, lives []live) {
 		_, _ = r.Write(bytes.Repeat([]byte{0xEE}, 100))
 	}
 	for i, l := range lives {
+		if os.Getenv("DRV_POOL_DEBUG") != "" {
+			fmt.Fprintf(os.Stderr, "live %s before=%q after=%q\n", l.kind, before[i], l.snap())
+		}
 		if !bytes.Equal(before[i], l.snap()) {
 			fail("engine-live", fmt.Sprintf("corrupt phase=%s kind=%s", phase, l.kind),
 				"content of a live "+l.kind+" changed when memory obtained from the pool was written")
@@ -164,7 +167,6 @@ func phaseRing(rnd *tr.Rand) []live {
 		if rb.IsEmpty() {
 			tr.Guard(func() { _, _ = rb.Write(pat(rnd, 100)) })
 		}
-		rb := rb
 		lives = append(lives, live{"ring",
 			func() []byte { h, t := rb.Peek(-1); return append(append([]byte(nil), h...), t...) },
 			func() [][]byte { h, t := rb.Peek(-1); return [][]byte{h, t} }})
@@ -238,7 +240,6 @@ func phaseLList(rnd *tr.Rand) []live {
 		if ll.IsEmpty() {
 			ll.PushBack(pat(rnd, 33))
 		}
-		ll := ll
 		spans := func() [][]byte { bs, _ := ll.Peek(-1); return bs }
 		lives = append(lives, live{"linkedlist",
 			func() []byte { return bytes.Join(spans(), nil) }, spans})
@@ -267,7 +268,6 @@ func phaseElastic(rnd *tr.Rand) []live {
 		if rb.IsEmpty() {
 			tr.Guard(func() { _, _ = rb.Write(pat(rnd, 77)) })
 		}
-		rb := rb
 		lives = append(lives, live{"elastic-ring",
 			func() []byte { h, t := rb.Peek(-1); return append(append([]byte(nil), h...), t...) },
 			func() [][]byte { h, t := rb.Peek(-1); return [][]byte{h, t} }})
@@ -295,7 +295,6 @@ func phaseElastic(rnd *tr.Rand) []live {
 		if mb.IsEmpty() {
 			tr.Guard(func() { _, _ = mb.Write(pat(rnd, 55)) })
 		}
-		mb := mb
 		spans := func() [][]byte { bs, _ := mb.Peek(-1); return bs }
 		lives = append(lives, live{"elastic-mixed",
 			func() []byte { return bytes.Join(spans(), nil) }, spans})
@@ -311,10 +310,11 @@ func phaseElastic(rnd *tr.Rand) []live {
 // bsPool "cache" path), and it answers through Write / Writev / AsyncWrite.
 type echoServer struct {
 	gnet.BuiltinEventEngine
-	eng    gnet.Engine
-	booted chan struct{}
-	mode   int32
-	closed int32
+	eng      gnet.Engine
+	booted   chan struct{}
+	mode     int32
+	closed   int32
+	datagram bool
 }
 
 func (s *echoServer) OnBoot(e gnet.Engine) gnet.Action {
@@ -329,6 +329,11 @@ func (s *echoServer) OnClose(c gnet.Conn, _ error) gnet.Action {
 }
 
 func (s *echoServer) OnTraffic(c gnet.Conn) gnet.Action {
+	if s.datagram {
+		buf, _ := c.Next(-1)
+		_, _ = c.Write(buf)
+		return gnet.None
+	}
 	for {
 		hdr, err := c.Peek(4)
 		if err != nil {
@@ -386,7 +391,7 @@ func frameOf(rnd *tr.Rand, n int) []byte {
 // a plain net client: sends frames in fragments, reads the echoes back
 func chat(conn net.Conn, rnd *tr.Rand, frames int, stream bool) error {
 	defer conn.Close()
-	_ = conn.SetDeadline(time.Now().Add(3 * time.Second))
+	_ = conn.SetDeadline(time.Now().Add(700 * time.Millisecond))
 	for i := 0; i < frames; i++ {
 		f := frameOf(rnd, 1+rnd.Intn(1<<uint(3+rnd.Intn(11))))
 		if stream {
@@ -432,6 +437,45 @@ func linkLocal() (ip net.IP, zone string) {
 	}
 	return nil, ""
 }
+
+// zoneProbe reads package net's cached name of the link-local interface the
+// way every address of a new connection gets it (zoneCache.name(index)): a
+// datagram from a link-local source is received on a wildcard socket and the
+// Zone of its source address is returned.  Both sockets are opened beforehand:
+// a lookup of the zone *by name* would refresh the cache and hide the damage.
+type zoneProbe struct {
+	pc  net.PacketConn
+	snd net.Conn
+}
+
+func newZoneProbe(ip net.IP, zone string) *zoneProbe {
+	pc, err := net.ListenPacket("udp6", "[::]:0")
+	if err != nil {
+		return nil
+	}
+	port := pc.LocalAddr().(*net.UDPAddr).Port
+	snd, err := net.Dial("udp6", fmt.Sprintf("[%s%%%s]:%d", ip, zone, port))
+	if err != nil {
+		pc.Close()
+		return nil
+	}
+	return &zoneProbe{pc, snd}
+}
+
+func (z *zoneProbe) name() string {
+	if _, err := z.snd.Write([]byte{1}); err != nil {
+		return "send-error"
+	}
+	_ = z.pc.SetReadDeadline(time.Now().Add(300 * time.Millisecond))
+	var buf [8]byte
+	_, a, err := z.pc.ReadFrom(buf[:])
+	if err != nil {
+		return "recv-error"
+	}
+	return a.(*net.UDPAddr).Zone
+}
+
+func (z *zoneProbe) close() { z.pc.Close(); z.snd.Close() }
 
 var portSeq int32
 
@@ -481,7 +525,7 @@ func runEngine(phase string, rnd *tr.Rand) bool {
 	default:
 		return false
 	}
-	srv := &echoServer{booted: make(chan struct{})}
+	srv := &echoServer{booted: make(chan struct{}), datagram: proto == "udp" || proto == "udp6"}
 	errc := make(chan error, 1)
 	go func() {
 		errc <- gnet.Run(srv, proto+"://"+addr, gnet.WithNumEventLoop(2), gnet.WithLogLevel(logging.FatalLevel),
@@ -566,12 +610,16 @@ func runEngine(phase string, rnd *tr.Rand) bool {
 		}
 	}
 	time.Sleep(20 * time.Millisecond)
-	ctx, cancel := context.WithTimeout(context.Background(), 3*time.Second)
-	_ = srv.eng.Stop(ctx)
-	cancel()
+	// Engine.Stop polls every 500 ms; gnet.Run returns as soon as the engine is down
+	go func() {
+		ctx, cancel := context.WithTimeout(context.Background(), 3*time.Second)
+		_ = srv.eng.Stop(ctx)
+		cancel()
+	}()
 	select {
 	case <-errc:
 	case <-time.After(3 * time.Second):
+		w.Hist("engine-stop-timeout-" + phase)
 	}
 	return true
 }
@@ -595,6 +643,14 @@ func engine(phase string, seed uint64) {
 			lives = phaseElastic(rnd)
 		default:
 			ran = runEngine(phase, rnd)
+			if ip, zone := linkLocal(); ran && ip != nil {
+				if zp := newZoneProbe(ip, zone); zp != nil {
+					defer zp.close()
+					lives = append(lives, live{"net-zonecache",
+						func() []byte { return []byte(zp.name()) },
+						func() [][]byte { return nil }})
+				}
+			}
 		}
 		if !ran {
 			w.Hist("engine-skipped-" + phase)
